@@ -189,13 +189,6 @@ class BitStringPayloadDecoder(AbstractSimplePayloadDecoder):
         if not length and not isFragment:
             raise error.PyAsn1Error('Empty BIT STRING substrate')
 
-        for chunk in isEndOfStream(substrate):
-            if isinstance(chunk, SubstrateUnderrunError):
-                yield chunk
-
-        if chunk and not isFragment:
-            raise error.PyAsn1Error('Empty BIT STRING substrate')
-
         if tagSet[0].tagFormat == tag.tagFormatSimple:  # XXX what tag to check?
 
             for trailingBits in readFromStream(substrate, 1, options):
